@@ -182,12 +182,11 @@ where
             err @ Err(_) => err,
         };
 
-        let value = result?;
-
+        // Restore the variables shadowed by the closure parameters, also when the closure failed.
         cleanup(ctx.state_mut(), key_ident, old_key);
         cleanup(ctx.state_mut(), value_ident, old_value);
 
-        Ok(value)
+        result
     }
 
     /// Run the closure to completion, given the provided index/value pair, and
@@ -212,15 +211,16 @@ where
         let old_value = insert(ctx.state_mut(), value_ident, cloned_value);
 
         // A `return` inside the closure ends this iteration with the returned value.
-        let value = match (self.runner)(ctx) {
-            Ok(value) | Err(ExpressionError::Return { value, .. }) => value,
-            Err(err) => return Err(err),
+        let result = match (self.runner)(ctx) {
+            Ok(value) | Err(ExpressionError::Return { value, .. }) => Ok(value),
+            err @ Err(_) => err,
         };
 
+        // Restore the variables shadowed by the closure parameters, also when the closure failed.
         cleanup(ctx.state_mut(), index_ident, old_index);
         cleanup(ctx.state_mut(), value_ident, old_value);
 
-        Ok(value)
+        result
     }
 
     /// Run the closure to completion, given the provided key, and the runtime
@@ -238,13 +238,15 @@ where
         let old_key = insert(ctx.state_mut(), ident, cloned_key.into());
 
         // A `return` inside the closure ends this iteration with the returned value.
-        let new_key = match (self.runner)(ctx) {
-            Ok(value) | Err(ExpressionError::Return { value, .. }) => value,
-            Err(err) => return Err(err),
+        let result = match (self.runner)(ctx) {
+            Ok(value) | Err(ExpressionError::Return { value, .. }) => Ok(value),
+            err @ Err(_) => err,
         };
-        *key = new_key.try_bytes_utf8_lossy()?.into();
 
+        // Restore the variable shadowed by the closure parameter, also when the closure failed.
         cleanup(ctx.state_mut(), ident, old_key);
+
+        *key = result?.try_bytes_utf8_lossy()?.into();
 
         Ok(())
     }
@@ -264,12 +266,15 @@ where
         let old_value = insert(ctx.state_mut(), ident, cloned_value);
 
         // A `return` inside the closure ends this iteration with the returned value.
-        *value = match (self.runner)(ctx) {
-            Ok(value) | Err(ExpressionError::Return { value, .. }) => value,
-            Err(err) => return Err(err),
+        let result = match (self.runner)(ctx) {
+            Ok(value) | Err(ExpressionError::Return { value, .. }) => Ok(value),
+            err @ Err(_) => err,
         };
 
+        // Restore the variable shadowed by the closure parameter, also when the closure failed.
         cleanup(ctx.state_mut(), ident, old_value);
+
+        *value = result?;
 
         Ok(())
     }
